@@ -33,6 +33,8 @@ struct SeqStats {
     ok_ops: Vec<&'static str>,
     fails: Vec<(&'static str, u64)>,
     zero_ops: u64,
+    opened_by_tag: std::collections::BTreeMap<u8, u64>,
+    max_integration: usize,
     c03_nontrivial: u64,
     c06_probes: u64,
     skips: Vec<(&'static str, &'static str)>,
@@ -142,6 +144,8 @@ fn run_case(target: Target, spec: &WorldSpec, ops: &[Op], stats: &mut SeqStats, 
             }
         }
         stats.max_positions = stats.max_positions.max(m.c16.max_positions);
+        stats.opened_by_tag = m.c16.opened_by_tag.clone();
+        stats.max_integration = m.c16.max_integration_positions;
         stats.reopened = m.c16.reopened;
         let mut hit: Option<(String, String)> = None;
         for f in findings {
@@ -197,6 +201,10 @@ pub fn run_target(ctx: &Ctx, target: Target) -> Report {
                 rep.add_extra("ops_executed", ops.len() as u64);
                 rep.add_extra("ops_succeeded", stats.ok_ops.len() as u64);
                 rep.add_extra("zero_amount_ops", stats.zero_ops);
+                for (t, n) in &stats.opened_by_tag {
+                    rep.label_n(&format!("position-opened:tag{t}"), *n);
+                }
+                rep.set_max("max_integration_positions_in_one_account", stats.max_integration as f64);
                 for n in &notes {
                     rep.label(&format!("note:{n}"));
                 }
